@@ -8,8 +8,8 @@ import (
 	"golang.org/x/tools/go/ssa"
 
 	"ivgsa/internal/load"
-	"ivgsa/internal/rules"
 	"ivgsa/internal/report"
+	"ivgsa/internal/rules"
 	"ivgsa/internal/sym"
 )
 
